@@ -26,9 +26,26 @@ func NewCond(l Locker) *Cond { return sync.NewCond(l) }
 
 type RWMutex struct {
 	mu sync.RWMutex
+	n  int
 }
 
-func (m *RWMutex) id() string { return fmt.Sprintf("rw") }
+var (
+	idMu  sync.Mutex
+	idSeq int
+)
+
+// id numbers the RWMutex instances in order of first use ("rw1" is the lock the first gated
+// operation touches); the scheduler keeps one lock picture per id.
+func (m *RWMutex) id() string {
+	idMu.Lock()
+	if m.n == 0 {
+		idSeq++
+		m.n = idSeq
+	}
+	n := m.n
+	idMu.Unlock()
+	return fmt.Sprintf("rw%d", n)
+}
 
 func (m *RWMutex) Lock()    { gate.Yield("Lock", m.id()); m.mu.Lock() }
 func (m *RWMutex) Unlock()  { gate.Yield("Unlock", m.id()); m.mu.Unlock() }
